@@ -6,11 +6,50 @@ MANIFEST = dict(
     text='Theorems in coq/Properties/C02*.v (refusal leaves the state unchanged; depth arithmetic of unlock / re-lock; consequences of the reachability invariant) are machine-checked over the engine model for all states / core histories; tie = differential correspondence on seeded histories biased to few LockIds, Rcount in {0,1,2,3,254,255}, unlocks of queued / expired / never-existing LockIds, unlock-first and cancel-wait; monitor = ownership + depth arithmetic evaluated on implementation snapshots.',
     note="Trusted: Coq kernel; hand-written model validated by the correspondence check of the same run; extraction (ExtrOcamlBasic only); harness + hooks; sequential schedules at request/sweep granularity, one shard, manual clock (sweeper driver loops replayed by the harness); see evidence trusted_base for the full list of modelled-not-verified parts.",
 )
-PROFILES = [('reentrant', 0.45), ('core', 0.25), ('waiters', 0.15), ('count', 0.1), ('many', 0.02)]
+PROFILES = [("reentrant", 0.4), ("core", 0.2), ("waiters", 0.12), ("count", 0.08), ("sched", 0.1), ("sched2", 0.08), ("many", 0.02)]
 MONITORS = ['C02', 'PANIC']
+
+
+def deep_reentrancy(rng, cid0):
+    """re-entrant depth up to the 0xff ceiling (Rcount 0xff) and back: the 256th lock must be refused, unlock-all
+    must release every level, one-level unlocks must need as many unlocks as locks"""
+    cases = []
+    for j, (rc_unlock, n) in enumerate([(0, 258), (1, 257)]):
+        key = 41 + j
+        lines = ["case %d 1000000 1 1" % (cid0 + j)]
+        rid = 700000 + 2000 * j
+        for i in range(n):
+            lines.append("req 1 L %d 0 8001 %d 0 0 0 600 %d 255 -" % (rid, key, rng.choice([0, 3]))); rid += 1
+        lines.append("req 2 L %d 0 8002 %d 0 0 0 600 3 0 -" % (rid, key)); rid += 1
+        for i in range(3 if rc_unlock == 0 else 258):
+            lines.append("req 1 U %d 0 8001 %d 0 0 0 0 0 %d -" % (rid, key, rc_unlock)); rid += 1
+        lines.append("req 2 L %d 0 8002 %d 0 0 0 600 0 0 -" % (rid, key)); rid += 1
+        lines += ["adv 0", "role 1"]
+        for i in range(4):
+            lines.append("req 1 U %d 1 0 %d 0 0 0 0 0 0 -" % (rid, key)); rid += 1
+        lines += ["adv 1", "sweept", "sweepe", "adv 700", "sweept", "sweepe"] + ["adv 1", "sweept", "sweepe"] * 12
+        lines.append("end")
+        cases.append(lines)
+    # more than 193 simultaneous holders: the holder list switches to the map-indexed queue; release a holder in
+    # the middle of the map part, then try to release it again (must be refused), then the others
+    key = 47
+    lines = ["case %d 1000000 1 0" % (cid0 + 2)]
+    rid = 760000
+    n = rng.choice([200, 230])
+    for i in range(n):
+        lines.append("req 1 L %d 0 %d %d 0 0 0 600 65535 0 -" % (rid, 9100 + i, key)); rid += 1
+    for lid in (9100 + n - 30, 9100 + n - 30, 9100 + 3, 9100 + 3, 9100 + n - 1, 9100 + n - 1, 9100 + n - 31):
+        lines.append("req 2 U %d 0 %d %d 0 0 0 0 0 0 -" % (rid, lid, key)); rid += 1
+    lines += ["adv 0", "role 1"]
+    for i in range(n + 4):
+        lines.append("req 1 U %d 1 0 %d 0 0 0 0 0 0 -" % (rid, key)); rid += 1
+    lines += ["adv 1", "sweept", "sweepe", "adv 700", "sweept", "sweepe"] + ["adv 1", "sweept", "sweepe"] * 12
+    lines.append("end")
+    cases.append(lines)
+    return cases
 
 
 def run(ctx):
     if getattr(ctx, "replay", None):
         return _engine.replay(ctx, 'C02', MONITORS)
-    return _engine.run_engine_check(ctx, 'C02', PROFILES, MONITORS, n_quick=500, n_thorough=20000)
+    return _engine.run_engine_check(ctx, 'C02', PROFILES, MONITORS, n_quick=500, n_thorough=20000, extra_cases=deep_reentrancy)
